@@ -257,7 +257,7 @@ func visitInstr(fr *frame, instr ssa.Instruction) continuation {
 		if l < 0 || c < 0 || l > c {
 			panic(runtimeError("makeslice: len out of range"))
 		}
-		if c > 1<<26 {
+		if c > 1<<22 {
 			i.abort(abUnsupported, fmt.Sprintf("make of %d elements exceeds the engine's allocation bound", c))
 		}
 		slice := make([]value, c)
